@@ -165,6 +165,14 @@ func UFU64(name string, args ...uint64) uint64 { return next("uf:"+name, "u64").
 
 func Concrete(x int) int { return x }
 
+// DeepCopy returns a structural copy of v (engine only: it backs the "ideal
+// codec" stubs, which are never active natively).
+func DeepCopy(v any) any { return v }
+
+// CopyInto stores a copy of *src (or src) into *dst when the types agree
+// (engine only; the native build uses the real codec instead).
+func CopyInto(dst, src any) bool { panic("verifrt.CopyInto is only meaningful under the engine") }
+
 func Ite(c bool, x, y uint64) uint64 {
 	if c {
 		return x
